@@ -158,8 +158,15 @@ def bind(chk: Check, tier: str, seed: int):
 
 def _bind(chk, tier, seed, wd, db, rng, dec, dec2, off, late):
     KEY_ALTERNATIVES[0] = 6 if tier == "thorough" else 1
+    from nmea2000.decoder import NMEA2000Decoder
+    off_dump = NMEA2000Decoder(build_network_map=False, dump_to_file=str(wd / "dump-off.jsonl"))
+    off_dump2 = NMEA2000Decoder(build_network_map=False, dump_to_file=str(wd / "dump-off2.jsonl"), dump_pgns=[59904])
+    on_dump = NMEA2000Decoder(build_network_map=True, dump_to_file=str(wd / "dump-on.jsonl"), dump_pgns=["isoRequest", 127250])
+    for s_ in (7, 9):
+        on_dump.decode_basic_string(CLAIM % s_)
     groups, meta, lines, line_ref = [], [], [], []
     n_late = [0]
+    n_dump = [0]
     cross: list = []          # one observation per definition with a not-available key: hashes of different definitions differ
     defs = [d for d in db["defs"] if d["decodable"] and d["static"]]
     # every decodable definition with key fields, the ones with variable-length (text) fields included
@@ -190,6 +197,13 @@ def _bind(chk, tier, seed, wd, db, rng, dec, dec2, off, late):
                 if o4:
                     o4["netmap"] = False
                     obs.append(o4)
+                # decoders that also write a dump file (of everything / of another PGN only), network mapping off and on
+                for dd_, nm_ in ((off_dump, False), (off_dump2, False), (on_dump, True)):
+                    o6 = decode_hash(dd_, d, payload)
+                    if o6:
+                        o6["netmap"] = nm_
+                        obs.append(o6)
+                        n_dump[0] += 1
                 for src in (7, 9):
                     o5 = decode_hash(late, d, payload, src=src)
                     if o5:
@@ -255,7 +269,8 @@ def _bind(chk, tier, seed, wd, db, rng, dec, dec2, off, late):
     nkey = sum(1 for g, m in zip(groups, meta) if m in by_chosen and any(f["pk"] for f in by_chosen[m]["fields"]))
     chk.gate(nkey >= (100 if tier != "selftest" else 100), f"only {nkey} definitions with key fields were observed")
     chk.gate(n_late[0] >= len(groups), f"only {n_late[0]} observations from the instance past its discovery window")
-    chk.add(observations_after_discovery_window=n_late[0])
+    chk.gate(n_dump[0] >= len(groups), f"only {n_dump[0]} observations from decoders that write a dump file")
+    chk.add(observations_after_discovery_window=n_late[0], observations_from_dumping_decoders=n_dump[0])
     chk.add(traces_validated_against_impl=len(groups), observations=sum(len(g["obs"]) for g in groups),
             definitions_with_key_fields=nkey, second_process_observations=len(lines), evaluations=sum(len(g["obs"]) for g in groups),
             distinct_nontrivial=len(groups))
